@@ -169,9 +169,21 @@ class Disposable:
         if how.endswith("raise"):
             self.enter_err = DispErr(f"{self.owner}.d{self.idx}.enter")
             raise self.enter_err
+        if how.endswith("raise-cancelled"):
+            self.enter_err = asyncio.CancelledError(f"{self.owner}.d{self.idx}.enter")
+            raise self.enter_err
         self.enter_done = True
         ys = [family.make(t, u) for t, u in self.spec["yield"]]
         form = self.spec.get("form", "auto")
+        # every legal shape of `Iterable[State] | State | None`, including one-shot iterables
+        if form == "generator":
+            return (y for y in ys)
+        if form == "iter":
+            return iter(ys)
+        if form == "map":
+            return map(lambda y: y, ys)
+        if form == "tuple":
+            return tuple(ys)
         if not ys:
             return None if form != "empty-list" else []
         if len(ys) == 1 and form != "list":
@@ -192,6 +204,8 @@ class Disposable:
         if how.endswith("raise-base"):
             self.exit_err = DispBase(f"{self.owner}.d{self.idx}.exit")
             raise self.exit_err
+        if how.endswith("true"):
+            return True  # "I handled it" - one disposable must not be able to swallow the scope body's exception
         return None
 
 
@@ -211,6 +225,7 @@ class World:
         self.tasks: dict[str, asyncio.Task[Any]] = {}
         self.task_owner: dict[str, str | None] = {}
         self.spawned_by_disposable: set[str] = set()
+        self.prepared: dict[str, Any] = {}
         self.exit_snapshot: dict[str, dict[str, bool]] = {}  # block -> {task spawned into it: done() at the instant the block was left}
         self.capture = LogCapture()
         self.uid = 10_000
@@ -430,6 +445,14 @@ async def run_steps(W: World, steps: list[dict[str, Any]], rng: random.Random | 
                 raise
         elif op == "mark":
             W.event("mark", step.get("tag"))
+        elif op == "prepare":
+            # build the scope object now, enter it later (possibly in another task): `with prepared:` must bind to the context
+            # current where it is ENTERED
+            blk = step["block"]
+            states = [family.make(t, u) for t, u in blk["supply"]]
+            W.event("prepare", blk["name"])
+            assert blk["kind"] in ("ascope", "sscope")  # ctx.updated binds its parent state when it is called, by design
+            W.prepared[blk["name"]] = ctx.scope(blk.get("scope_name", blk["name"]), *states)
         elif op == "call":  # python-only step (not JSON): await a harness coroutine function
             await step["fn"](W)
         elif op == "log":
@@ -535,7 +558,7 @@ async def run_block(W: World, block: dict[str, Any], rng: random.Random | None) 
             if block.get(opt) is not None:
                 kw[opt] = W.resolve_option(opt, block[opt])
         W.event("construct", name)
-        cm = ctx.scope(block.get("scope_name", name), *states, **kw)
+        cm = W.prepared.pop(name) if block.get("prepared") else ctx.scope(block.get("scope_name", name), *states, **kw)
         entered = False
         try:
             await cm.__aenter__()
@@ -567,7 +590,10 @@ async def run_block(W: World, block: dict[str, Any], rng: random.Random | None) 
                 if block.get(opt) is not None:
                     kw2[opt] = W.resolve_option(opt, block[opt])
             W.event("construct", name)
-        cm2 = ctx.scope(block.get("scope_name", name), *states, **kw2) if kind == "sscope" else ctx.updated(*states)
+        if block.get("prepared"):
+            cm2 = W.prepared.pop(name)
+        else:
+            cm2 = ctx.scope(block.get("scope_name", name), *states, **kw2) if kind == "sscope" else ctx.updated(*states)
         try:
             with cm2:
                 try:
@@ -615,7 +641,7 @@ class Gen:
         kind = r.choice(allowed)
         b: dict[str, Any] = {"op": "block", "kind": kind, "name": f"b{self.bid}", "supply": self.supply(), "body": []}
         if kind == "ascope" and disposables and r.random() < 0.35:
-            b["disposables"] = [{"yield": [[t, self.fresh_uid()] for t in r.sample(family.NAMES, r.choice([0, 1, 1, 2]))], "enter": "ok", "exit": "ok", "form": r.choice(["auto", "auto", "list"])} for _ in range(r.randint(1, 2))]
+            b["disposables"] = [{"yield": [[t, self.fresh_uid()] for t in r.sample(family.NAMES, r.choice([0, 1, 1, 2]))], "enter": "ok", "exit": "ok", "form": r.choice(["auto", "auto", "list", "generator", "iter", "map", "tuple"])} for _ in range(r.randint(1, 2))]
         body = b["body"]
         body.append(self.probe())
         n_children = 0
